@@ -75,6 +75,77 @@ func C03(r *vf.Run) {
 		}
 	}
 
+	r.SetExtra("methods_read_from_their_names", emDiscoveredNames)
+	if len(emLabelLong) > 0 && r.Phase("discovered-label-methods") {
+		// methods outside the hand-written table whose name says "long address of a label": the operand
+		// must be the label's full 24-bit address once Finalize has run, wherever the label lies -
+		// before or behind the instruction, in the same bank or another
+		g := r.Rand("disc")
+		for _, m := range emLabelLong {
+			for i := 0; i < r.N(400, 4000); i++ {
+				base := uint32(g.Intn(256))<<16 | uint32(g.Intn(0x10000))
+				switch i % 4 {
+				case 1:
+					base = base&0xFF0000 | uint32(0xFF00+g.Intn(0x100)) // the program crosses a bank boundary
+				case 2:
+					base = base&0xFF0000 | uint32(0xFFF0+g.Intn(0x10))
+				}
+				if base>>16 == 0xFF && base&0xFFFF > 0xF000 {
+					base -= 0x010000
+				}
+				before, after := g.Intn(300), g.Intn(300)
+				backward := g.Bool()
+				buf := make([]byte, 1024)
+				e := asm.NewEmitter(buf, g.Bool())
+				e.SetBase(base)
+				var target, insAt uint32
+				name := "t" + fmt.Sprint(i)
+				pan := vf.Try(func() {
+					if backward {
+						e.EmitBytes(make([]byte, g.Intn(4)))
+						e.Label(name)
+						target = e.PC()
+						e.EmitBytes(g.Bytes(before))
+						insAt = uint32(e.Len())
+						reflect.ValueOf(e).MethodByName(m.Name).Interface().(func(string))(name)
+						e.EmitBytes(g.Bytes(after))
+					} else {
+						e.EmitBytes(g.Bytes(before))
+						insAt = uint32(e.Len())
+						reflect.ValueOf(e).MethodByName(m.Name).Interface().(func(string))(name)
+						e.EmitBytes(g.Bytes(after))
+						e.Label(name)
+						target = e.PC()
+					}
+					if err := e.Finalize(); err != nil {
+						panic(err)
+					}
+				})
+				r.Eval(1)
+				ctx := fmt.Sprintf("%s(label) at $%06x, label at $%06x (%d bytes %s)", m.Name, base+insAt, target, map[bool]int{true: before, false: after}[backward], map[bool]string{true: "before", false: "behind"}[backward])
+				if pan != nil {
+					r.Fail("discovered:"+m.Name+":fails", fmt.Sprintf("%s: %v", ctx, pan), nil)
+					break
+				}
+				want := []byte{m.op, byte(target), byte(target >> 8), byte(target >> 16)}
+				got := e.Bytes()
+				if int(insAt)+4 > len(got) || !bytes.Equal(got[insAt:insAt+4], want) {
+					var have []byte
+					if int(insAt)+4 <= len(got) {
+						have = got[insAt : insAt+4]
+					}
+					r.Fail("discovered:"+m.Name+":encoding", fmt.Sprintf("%s: emitted % x, canonical % x", ctx, have, want), nil)
+					break
+				}
+				if target>>16 != (base+insAt)>>16 {
+					r.Cell("discovered:" + m.Name + ":label-in-another-bank")
+				} else {
+					r.Cell("discovered:" + m.Name + ":label-in-bank")
+				}
+			}
+		}
+	}
+
 	if r.Phase("encode-sweep") {
 		r.Parallel(runtime.NumCPU(), len(methods)*4, func(wi, idx int) {
 			m := methods[idx/4]
@@ -246,7 +317,7 @@ func C03(r *vf.Run) {
 						for i := range buf {
 							buf[i] = 0xCC
 						}
-						target := buf[:prefix+free:prefix+free]
+						target := buf[: prefix+free : prefix+free]
 						if rep%2 == 1 {
 							target = buf[:prefix+free] // spare capacity behind the window
 						}
